@@ -1102,6 +1102,64 @@ def loops_to_any(func):
     return changed
 
 
+def _reorderable(st):
+    """(reads, writes) of a statement that may change places with an independent neighbour: an assignment of a side-effect-free
+    value to a name / attribute chain, or an in-place container method on an attribute chain with side-effect-free arguments;
+    None for anything else (calls of unknown functions keep their order)"""
+    if isinstance(st, ast.Assign) and len(st.targets) == 1 and isinstance(st.targets[0], (ast.Name, ast.Attribute)) and chain(st.targets[0]) and is_pure(st.value) \
+            and not _allocates_shared(st.value):
+        base = st.targets[0].value if isinstance(st.targets[0], ast.Attribute) else None
+        # (the object whose attribute is set is only referred to: a bare name there reads nothing another statement writes)
+        return read_chains(st.value) | (read_chains(base) if base is not None and not isinstance(base, ast.Name) else set()), {chain(st.targets[0])}
+    if isinstance(st, ast.Expr) and isinstance(st.value, ast.Call) and isinstance(st.value.func, ast.Attribute) and st.value.func.attr in ('append', 'add', 'extend', 'update', 'clear') \
+            and chain(st.value.func.value) and len(chain(st.value.func.value)) >= 2 and not st.value.keywords and all(is_pure(a) for a in st.value.args):
+        rd = set()
+        for a in st.value.args:
+            rd |= read_chains(a)
+        return rd | {chain(st.value.func.value)}, {chain(st.value.func.value)}
+    return None
+
+
+def _allocates_shared(v):
+    return False
+
+
+def sort_independent_runs(func):
+    """maximal runs of neighbouring statements that are pairwise independent (none writes what another reads or writes) are put in
+    the order of their text with local names blanked: the order in which independent attributes are set is immaterial"""
+    import re as _re
+    changed = False
+    for owner, block in _all_blocks(func):
+        i = 0
+        while i < len(block):
+            run = []
+            j = i
+            while j < len(block):
+                rw = _reorderable(block[j])
+                if rw is None:
+                    break
+                ok = True
+                for (_s, r2, w2) in run:
+                    if any(_prefix(a, b) for a in rw[1] for b in (r2 | w2)) or any(_prefix(a, b) for a in w2 for b in rw[0]):
+                        ok = False
+                        break
+                if not ok:
+                    break
+                run.append((block[j], rw[0], rw[1]))
+                j += 1
+            if len(run) > 1:
+                def key(item):
+                    st = item[0]
+                    txt = ast.unparse(st)
+                    return _re.sub(MARK + '[^' + MARK + ']+' + MARK, MARK, txt)
+                new = [x[0] for x in sorted(run, key=key)]
+                if [id(x) for x in new] != [id(x[0]) for x in run]:
+                    block[i:j] = new
+                    changed = True
+            i = max(j, i + 1)
+    return changed
+
+
 def loops_to_sum(func):
     """`t = 0` followed by `for v in X: t += E` (t a local not read in E or X, v not used afterwards) is `t = sum([E for v in X])`"""
     changed = False
@@ -2386,6 +2444,7 @@ def canonical(func, helpers=None, consts=None, sized=None, cls_name=None, props=
         local_names = {n for n in stores if n not in params}
         # nested scopes keep their spelling (their text is compared as written)
         _Rename({n: f'{MARK}{n}{MARK}' for n in local_names}).visit(f)
+        sort_independent_runs(f)
         _NO_CLOSURES[0] = not any(isinstance(n, (ast.FunctionDef, ast.AsyncFunctionDef, ast.Lambda, ast.ClassDef, ast.Global, ast.Nonlocal)) for n in ast.walk(f) if n is not f)
         _NO_CLOSURES[1] = tuple(params)
         _PURE_ATOMS.clear()
